@@ -146,7 +146,7 @@ def rand_old(rng, prog, leaves, p=0.4):
 
 
 def rand_weights(rng, m):
-    ws = list(range(1, m + 1))
+    ws = list(range(2, m + 2))          # distinct and never the single weight 1 (one row is not "nothing to aggregate")
     rng.shuffle(ws)
     ws = [w if rng.random() < 0.75 else -w for w in ws]
     if rng.random() < 0.3:
